@@ -191,6 +191,15 @@ def errorStatus (code : Nat) : Option Nat :=
   | some (_, s) => some s
   | none => none
 
+/-- `Http1Server.send(ResponseProtocolError(code, message))`: (bytes written to the client, connection closed).
+    Nothing at all once the client side cannot be written to; a page only if no response has been started and the
+    code maps to a status; the connection is closed in every other case. -/
+def h1ErrorReply (canWrite responseStarted : Bool) (code : Nat) (m : Bytes) : Option Bytes × Bool :=
+  if !canWrite then (none, false)
+  else match errorStatus code with
+    | some s => if responseStarted then (none, true) else (some (makeErrorResponse s m), true)
+    | none => (none, true)
+
 /-! ### reference HTTP/1.1 response reader -/
 
 structure Resp where
